@@ -79,7 +79,24 @@ def runHist (j : Lean.Json) : Except String Lean.Json := do
       else throw "bad mut"
     | "build" =>
       -- ["build", buildName, versions(wire dict), rootIdx, arg]
-      if h : a.size = 5 then
+      if h : a.size = 5 ∨ a.size = 6 then
+        have h5 : 4 < a.size := by omega
+        -- optional 6th element: injected fault {"files":[..], "subs":[[fname,args,kwargs]..], "abort":bool}
+        let fault := if h6 : a.size = 6 then a[5] else Lean.Json.null
+        let failFiles := match fault.getObjVal? "files" with
+          | .ok (.arr xs) => xs.toList.filterMap fun x => match x with | .str s => some (parsePath s) | _ => none
+          | _ => []
+        let failSubs ← match fault.getObjVal? "subs" with
+          | .ok (.arr xs) => xs.toList.mapM fun x => do
+              let t ← x.getArr?
+              if ht : t.size = 3 then
+                pure (subKey (← t[0].getStr?) (← parseJson t[1]) (← parseJson t[2]))
+              else throw "bad sub fault"
+          | _ => pure []
+        let abort : Nat := match fault.getObjVal? "abort" with
+          | .ok (.str "start") => 1
+          | .ok (.str "end") => 2
+          | _ => 0
         let name ← a[1].getStr?
         let versions ← match ← parseJson a[2] with
           | .obj kvs => pure kvs
@@ -91,9 +108,9 @@ def runHist (j : Lean.Json) : Except String Lean.Json := do
           { f with stmts := f.stmts }
         let verOf := lookupVersion versions
         let prog := denoteFunc verOf (funcs'.size + 1) funcs' rootIdx arg (.obj [])
-        let out := Spec.build w cf name prog
+        let out := Spec.build w cf name prog failFiles failSubs abort
         w := out.world
-        let kout := Impl.build kw cf name versions prog
+        let kout := Impl.build kw cf name versions prog failFiles failSubs abort
         kw := kout.world
         let implJ := Json.mkObj [("res", showRes kout.res), ("tree", showTree kw.fs),
           ("inv", .arr (kout.invLog.map showInv).toArray),
